@@ -19,6 +19,17 @@
       attribute value (a str or None where a literal is expected is a difference, so is a literal of the
       other package's enumeration), reference targets by name.  Every package is registered in the
       resource sets under its own nsURI (XMI names a package by it).
+  two_file_scenarios       TWO resources (one or two directories) referring to each other: every mix of id modes
+      (URI fragment / id attribute / uuid) per resource, references single and many, unidirectional and
+      bidirectional (1-1, 1-n, n-n with unique ends, a pair entered from either end), both save orders, both
+      load orders in a fresh ResourceSet, every proxy followed.  Compared with the saved model: targets by
+      name, unique ends as SETS of resolved targets (no `in`: C14's known stale-hash findings; the order of
+      a bidirectional end across files and, in XMI, of mixed local / remote targets is C14's F-C14-order-*),
+      no element twice under a unique feature (a proxy and its target are one element), symmetric
+      opposites; loading and following must not raise.
+  datatype_scenarios       every built-in data type, the wrapper types (EBooleanObject, EIntegerObject, ...)
+      included, single and many-valued, None and defaults, both values of SERIALIZE_DEFAULT_VALUES, compared
+      exactly (value AND Python type).
 
 Each family draws from its own PRNG stream common.rng_for(seed, '<prop>:<family>'); a failing case carries
 'scenario', 'seed', 'tier', 'history' and is replayed by common.scenario_replay.
@@ -105,10 +116,10 @@ def _history_dump(roots, with_ids):
     return {'roots': [r.name for r in roots], 'objs': d}
 
 
-def save_history_scenarios(ctx, out, fmt='json', prop='C09'):
+def save_history_scenarios(ctx, out, fmt='json', prop='C09', scale=1.0):
     ResourceSet, URI, JsonResource = _classes(fmt)
     rng = common.rng_for(ctx.seed, f'{prop}:save-history')
-    n = 150 if ctx.tier != 'thorough' else 1500
+    n = max(1, int((150 if ctx.tier != 'thorough' else 1500) * scale))
     ext = 'json' if fmt == 'json' else 'xmi'
     st = {'histories': 0, 'saves_ok': 0, 'saves_failed': 0, 'documents_loaded_and_compared': 0,
           'after_a_failed_save': 0, 'modes': {}, 'failing_save_kinds': {}}
@@ -378,10 +389,10 @@ def _subpackage_dump(box):
     return one(box)
 
 
-def subpackage_scenarios(ctx, out, fmt='json', prop='C09'):
+def subpackage_scenarios(ctx, out, fmt='json', prop='C09', scale=1.0):
     ResourceSet, URI, JsonResource = _classes(fmt)
     rng = common.rng_for(ctx.seed, f'{prop}:subpackages')
-    n = 100 if ctx.tier != 'thorough' else 1500
+    n = max(1, int((100 if ctx.tier != 'thorough' else 1500) * scale))
     ext = 'json' if fmt == 'json' else 'xmi'
     st = {'documents': 0, 'shape_pairs_differing': 0, 'objects': 0, 'shapes': {}, 'nested_subpackages': 0, 'prefix_schemes': {},
           'placements': {}, 'literals_renamed_in_place': 0, 'literals_added_after_instances': 0}
@@ -504,3 +515,277 @@ def _first_diff(a, b, where='box'):
             if x != y and isinstance(x, dict):
                 return _first_diff(x, y, f'{where}[{i}]')
     return f'{where}: saved {a!r} loaded {b!r}'
+
+
+# ---------------------------------------------------------------- (3) two files referring to each other
+def _two_file_metamodel():
+    from pyecore.ecore import EClass, EAttribute, EReference, EString, EPackage
+    pkg = EPackage('org', nsURI='http://verif/c09/twofiles', nsPrefix='org')
+    Group, Team, Person = EClass('Group'), EClass('Team'), EClass('Person')
+    for c in (Group, Team, Person):
+        c.eStructuralFeatures.append(EAttribute('name', EString))
+        c.eStructuralFeatures.append(EAttribute('code', EString, iD=True))
+    Group.eStructuralFeatures.append(EReference('teams', Team, upper=-1, containment=True))
+    Group.eStructuralFeatures.append(EReference('persons', Person, upper=-1, containment=True))
+    # unidirectional
+    Team.eStructuralFeatures.append(EReference('fav', Person))
+    Team.eStructuralFeatures.append(EReference('watch', Person, upper=-1))
+    Person.eStructuralFeatures.append(EReference('home', Team))
+    # 1-1, 1-n, n-n (many ends are unique collections)
+    captain = EReference('captain', Person)
+    captain_of = EReference('captainOf', Team, eOpposite=captain)
+    lead = EReference('lead', Person)
+    leads = EReference('leads', Team, upper=-1, eOpposite=lead)
+    members = EReference('members', Person, upper=-1)
+    teams = EReference('teams', Team, upper=-1, eOpposite=members)
+    Team.eStructuralFeatures.extend([captain, lead, members])
+    Person.eStructuralFeatures.extend([captain_of, leads, teams])
+    pkg.eClassifiers.extend([Group, Team, Person])
+    return pkg, Group, Team, Person
+
+
+UNIDIRECTIONAL = {'fav', 'watch', 'home'}
+
+
+def _resolved(v):
+    """the element a value stands for: a proxy and its target are the same element"""
+    f = getattr(type(v), 'force_resolve', None)
+    return v.force_resolve() if f is not None and hasattr(v, '_proxy_path') else v
+
+
+def _two_file_snapshot(groups, ordered_unidirectional=True):
+    """per object (by name) and reference: the names of the targets; problems: an element twice under a unique feature,
+    an opposite that does not point back.  Every proxy is followed.  No `in` on the collections (C14's known findings
+    about stale hashes): everything goes through lists of resolved targets compared by identity."""
+    snap, problems = {}, []
+    objs = [o for g in groups for o in list(g.teams) + list(g.persons)]
+    values = {}
+    for o in objs:
+        for f in o.eClass.eAllReferences():
+            if f.containment:
+                continue
+            raw = list(o.eGet(f)) if f.many else ([] if o.eGet(f) is None else [o.eGet(f)])
+            targets = [_resolved(v) for v in raw]
+            values[(id(o), f.name)] = targets
+            names = [t.name for t in targets]
+            if f.many and (f.name not in UNIDIRECTIONAL or not ordered_unidirectional):
+                # the order of a bidirectional end across files is C14's (known findings F-C14-order-*); XMI also loses
+                # the relative order of local and cross-resource targets of one collection (F-C14-order-mixed-xmi)
+                names = sorted(names)
+            snap[f'{o.name}.{f.name}'] = names
+            if f.many and len({id(t) for t in targets}) != len(targets):
+                kinds = [f'{type(v).__name__}({t.name})' for v, t in zip(raw, targets)]
+                problems.append(('element-twice', f'{o.name}.{f.name} holds an element twice: {kinds}'))
+    for o in objs:
+        for f in o.eClass.eAllReferences():
+            if f.containment or f.eOpposite is None:
+                continue
+            for t in values[(id(o), f.name)]:
+                back = values.get((id(t), f.eOpposite.name))
+                if back is None or not any(b is o for b in back):
+                    problems.append(('asymmetric', f'{o.name}.{f.name} holds {t.name} whose {f.eOpposite.name} does not hold it back'))
+    return snap, problems
+
+
+def two_file_scenarios(ctx, out, fmt='json', prop='C09', scale=1.0):
+    ResourceSet, URI, JsonResource = _classes(fmt)
+    rng = common.rng_for(ctx.seed, f'{prop}:two-files')
+    n = max(1, int((120 if ctx.tier != 'thorough' else 2500) * scale))
+    ext = 'json' if fmt == 'json' else 'xmi'
+    pkg, Group, Team, Person = _two_file_metamodel()
+    st = {'cases': 0, 'mode_mixes': {}, 'load_orders': {}, 'two_directories': 0, 'cross_file_links': 0, 'links': {}}
+    for it in range(n):
+        modes = [rng.choice(['fragment', 'ids', 'uuid']), rng.choice(['fragment', 'ids', 'uuid'])]
+        two_dirs = rng.random() < 0.4
+        load_order = rng.choice(['a-first', 'b-first'])
+        save_order = rng.choice(['a-first', 'b-first'])
+        st['mode_mixes']['+'.join(modes)] = st['mode_mixes'].get('+'.join(modes), 0) + 1
+        st['load_orders'][load_order] = st['load_orders'].get(load_order, 0) + 1
+        st['two_directories'] += 1 if two_dirs else 0
+        hist = [modes, 'two-dirs' if two_dirs else 'one-dir', 'save ' + save_order, 'load ' + load_order]
+        ga, gb = Group(name='ga'), Group(name='gb')
+        teams, persons, where = [], [], {}
+        for j in range(rng.choice([2, 3, 4])):
+            t = Team(name=f't{j}')
+            g = ga if rng.random() < 0.8 else gb          # mostly: teams in a, persons in b
+            g.teams.append(t)
+            teams.append(t)
+            where[t.name] = g.name
+        for j in range(rng.choice([2, 3, 4])):
+            p = Person(name=f'p{j}')
+            g = gb if rng.random() < 0.8 else ga
+            g.persons.append(p)
+            persons.append(p)
+            where[p.name] = g.name
+        for g, mode in ((ga, modes[0]), (gb, modes[1])):
+            if mode == 'ids':
+                for o in [g] + list(g.teams) + list(g.persons):
+                    o.code = f'k_{o.name}'
+        ops = []
+
+        def link(kind, x, y):
+            ops.append([kind, x.name, y.name])
+            st['links'][kind] = st['links'].get(kind, 0) + 1
+            if where[x.name] != where[y.name]:
+                st['cross_file_links'] += 1
+        free_p = list(persons)
+        rng.shuffle(free_p)
+        for t in teams:
+            if rng.random() < 0.6:
+                t.fav = rng.choice(persons)
+                link('fav', t, t.fav)
+            for p in rng.sample(persons, rng.randrange(0, len(persons) + 1)):
+                if rng.random() < 0.5:
+                    t.watch.append(p)
+                    link('watch', t, p)
+            if free_p and rng.random() < 0.6:
+                t.captain = free_p.pop()
+                link('captain', t, t.captain)
+            if rng.random() < 0.7:
+                t.lead = rng.choice(persons)
+                link('lead', t, t.lead)
+            for p in rng.sample(persons, rng.randrange(0, len(persons) + 1)):
+                if rng.random() < 0.5:
+                    t.members.append(p)
+                    link('members', t, p)
+                else:
+                    p.teams.append(t)               # the same pair, entered from the other end
+                    link('teams', p, t)
+        for p in persons:
+            if rng.random() < 0.5:
+                p.home = rng.choice(teams)
+                link('home', p, p.home)
+        hist.append(ops)
+        st['cases'] += 1
+        case = {'scenario': 'two-files', 'seed': ctx.seed, 'tier': ctx.tier, 'format': fmt, 'history': hist}
+        sig = {'property': prop, 'clause': 'two-files', 'format': fmt}
+        with tempfile.TemporaryDirectory(prefix='verif_twofiles_') as tmp:
+            da, db = (os.path.join(tmp, 'x'), os.path.join(tmp, 'y', 'z')) if two_dirs else (tmp, tmp)
+            os.makedirs(da, exist_ok=True)
+            os.makedirs(db, exist_ok=True)
+            pa, pb = os.path.join(da, f'a.{ext}'), os.path.join(db, f'b.{ext}')
+            try:
+                rs = _rset(fmt, pkg)
+                ra = rs.create_resource(URI(pa), use_uuid=(modes[0] == 'uuid'))
+                rb = rs.create_resource(URI(pb), use_uuid=(modes[1] == 'uuid'))
+                ra.append(ga)
+                rb.append(gb)
+                want, problems = _two_file_snapshot([ga, gb], fmt == 'json')
+                if problems:
+                    continue            # (not a state: nothing to say about its round trip)
+                for r in ((ra, rb) if save_order == 'a-first' else (rb, ra)):
+                    r.save()
+            except Exception as e:      # noqa
+                out.fail(dict(sig, stage='save'), f'{modes} save raised {type(e).__name__}: {e}', case)
+                continue
+            try:
+                rs2 = _rset(fmt, pkg)
+                loaded = {}
+                for key in (('a', 'b') if load_order == 'a-first' else ('b', 'a')):
+                    loaded[key] = rs2.get_resource(URI(pa if key == 'a' else pb))
+                got, problems = _two_file_snapshot([loaded['a'].contents[0], loaded['b'].contents[0]], fmt == 'json')
+            except Exception as e:      # noqa
+                out.fail(dict(sig, stage='load'), f'{modes} {load_order}: loading / following the references raised '
+                         f'{type(e).__name__}: {e}', case)
+                continue
+        if problems:
+            out.fail(dict(sig, stage=problems[0][0]), f'{modes} {load_order}: {problems[0][1]}', case)
+        elif got != want:
+            bad = [k for k in want if got.get(k) != want[k]][:3]
+            out.fail(dict(sig, stage='compare'), f'{modes} {load_order}: the loaded model differs: '
+                     f'{[(k, want[k], got.get(k)) for k in bad]}', case)
+    out.coverage[f'two_files_{fmt}'] = st
+
+
+# ---------------------------------------------------------------- (4) every built-in data type, wrapper types included
+BUILTIN_TYPES = {
+    'bool': ['EBoolean', 'EBooleanObject'],
+    'int': ['EInt', 'EInteger', 'EIntegerObject', 'ELong', 'ELongObject', 'EShort', 'EShortObject', 'EBigInteger'],
+    'float': ['EDouble', 'EDoubleObject', 'EFloat', 'EFloatObject'],
+    'str': ['EString', 'EChar', 'ECharacterObject'],
+    'decimal': ['EBigDecimal'],
+    'date': ['EDate'],
+}
+
+
+def datatype_scenarios(ctx, out, fmt='json', prop='C09', scale=1.0):
+    """one class with a single-valued and a many-valued attribute of every built-in data type (the Java wrapper types
+    EBooleanObject, EIntegerObject, ... included); random values, None, the defaults; both values of
+    SERIALIZE_DEFAULT_VALUES; compared exactly (value AND Python type)"""
+    import datetime
+    import decimal
+    from pyecore import ecore as E
+    ResourceSet, URI, JsonResource = _classes(fmt)
+    from pyecore.resources.xmi import XMIOptions
+    from pyecore.resources.json import JsonOptions
+    rng = common.rng_for(ctx.seed, f'{prop}:datatypes')
+    n = max(1, int((40 if ctx.tier != 'thorough' else 1500) * scale))
+    ext = 'json' if fmt == 'json' else 'xmi'
+    pkg = E.EPackage('dt', nsURI='http://verif/c09/datatypes', nsPrefix='dt')
+    A = E.EClass('A')
+    pkg.eClassifiers.append(A)
+    kinds = {}
+    for kind, names in BUILTIN_TYPES.items():
+        for name in names:
+            kinds[name] = kind
+            A.eStructuralFeatures.append(E.EAttribute('s_' + name, getattr(E, name)))
+            A.eStructuralFeatures.append(E.EAttribute('m_' + name, getattr(E, name), upper=-1, unique=False))
+    A.eStructuralFeatures.append(E.EReference('kids', A, upper=-1, containment=True))
+    pools = {'bool': [True, False], 'int': [0, 1, -1, 7, 2 ** 40, -12], 'float': [0.0, 1.5, -2.25, 1e300, 0.1],
+             'str': ['', 'a', 'true', '0', 'x y'],
+             'decimal': [decimal.Decimal('1.10'), decimal.Decimal('0'), decimal.Decimal('-3.5')],
+             'date': [datetime.datetime(2020, 1, 2, 3, 4, 5), datetime.datetime(1999, 12, 31, 23, 59, 59, 999999)]}
+    st = {'documents': 0, 'values': 0, 'none_values': 0, 'types': len(kinds)}
+
+    def dump(o):
+        d = {}
+        for f in o.eClass.eAllAttributes():
+            v = o.eGet(f)
+            d[f.name] = [[type(x).__name__, x] for x in v] if f.many else [type(v).__name__, v]
+        d['kids'] = [dump(k) for k in o.kids]
+        return d
+    for it in range(n):
+        sd = rng.random() < 0.4
+        hist = [['serialize_default', sd]]
+
+        def fill(o):
+            for name, kind in kinds.items():
+                if kind == 'str' and name != 'EString':
+                    pool = ['a', 'Z', '0']
+                else:
+                    pool = pools[kind]
+                if rng.random() < 0.8:
+                    v = None if rng.random() < 0.12 else rng.choice(pool)
+                    o.eSet('s_' + name, v)
+                    hist.append(['s_' + name, repr(v)])
+                    st['values'] += 1
+                    st['none_values'] += 1 if v is None else 0
+                if rng.random() < 0.5:
+                    vs = [None if rng.random() < 0.1 else rng.choice(pool) for _ in range(rng.randrange(0, 4))]
+                    o.eGet('m_' + name).extend(vs)
+                    hist.append(['m_' + name, repr(vs)])
+                    st['values'] += len(vs)
+            return o
+        a = fill(A())
+        if rng.random() < 0.5:
+            a.kids.append(fill(A()))
+        want = dump(a)
+        case = {'scenario': 'datatypes', 'seed': ctx.seed, 'tier': ctx.tier, 'format': fmt, 'history': hist}
+        sig = {'property': prop, 'clause': 'built-in-data-types', 'format': fmt}
+        st['documents'] += 1
+        with tempfile.TemporaryDirectory(prefix='verif_datatypes_') as tmp:
+            path = os.path.join(tmp, f'm.{ext}')
+            try:
+                res = _rset(fmt, pkg).create_resource(URI(path))
+                res.append(a)
+                opt = (JsonOptions if fmt == 'json' else XMIOptions).SERIALIZE_DEFAULT_VALUES
+                res.save(options={opt: True} if sd else None)
+                got = dump(_rset(fmt, pkg).get_resource(URI(path)).contents[0])
+            except Exception as e:      # noqa
+                out.fail(dict(sig, stage='raised'), f'save / load raised {type(e).__name__}: {e}', case)
+                continue
+        if got != want:
+            bad = [k for k in want if k != 'kids' and got.get(k) != want[k]][:3] or ['kids']
+            out.fail(dict(sig, stage='compare', types=sorted({k[2:] for k in bad})),
+                     f'serialize_default={sd}: the loaded model differs: {[(k, want[k], got.get(k)) for k in bad if k != "kids"]}', case)
+    out.coverage[f'datatypes_{fmt}'] = st
